@@ -88,3 +88,13 @@ def evaluate_property(case, out):
 def sanitizer_scope(case):
     """C18 speaks about decoding; the over-reads of locateBucket's memcmp on the last header are a recorded finding of C02/C07"""
     return False
+
+
+def failure_classes(case, out, fails):
+    """input-class tags of a concrete failure (known_findings.json predicates): an HHTFC dictionary whose bulk locate dies inside
+    memcmp (locateBucket comparing at a garbage offset) is the recorded residue hhtfc-locate-memcmp-segv; everything else is new"""
+    if case.meta.get("kind") == "HHTFC" and out.get("status") not in ("ok",) and \
+            any("memcmp" in e or "MemcmpInterceptorCommon" in e for e in out.get("err", [])) and \
+            len(out.get("lines", [])) >= 3 and not any(l.startswith("locall ") for l in out.get("lines", [])):
+        return ["hhtfc_locate_memcmp_segv", "crash"]
+    return []
